@@ -357,7 +357,8 @@ def _error_replays(tier):
 
 
 def main(tier):
-    bounds = {"models": "HEM, Merton, Variance-Gamma: every parameter value (symbolic), n = 0, 1, 2 (dedicated functions), VG n <= 4 (quick) / 7 (thorough) through integrate_against_xn (one side, infinite ends, straddling, intervals ending exactly at 0)",
+    bounds = {"histories_and_variants": 'VG n = 0 through integrate_against_xn; CGMY y = -1 masses (see CGMY_finite_activity)',
+              "models": "HEM, Merton, Variance-Gamma: every parameter value (symbolic), n = 0, 1, 2 (dedicated functions), VG n <= 4 (quick) / 7 (thorough) through integrate_against_xn (one side, infinite ends, straddling, intervals ending exactly at 0)",
               "intervals": "negative side, positive side, straddling zero (where finite), infinite ends; truncation bounds anywhere",
               "CGMY_finite_activity": "activity index y = -1 (every c, g, m): mass of one-sided intervals, of intervals ending exactly at 0 and of straddling intervals",
               "CGMY": "activity index y = 0 and y = 1 (every c, g, m): mass and first moment on one-sided, infinite, straddling and zero-ended intervals, second moment over "
